@@ -70,6 +70,11 @@ NOTES = """Interpretation choices (read generously, see BUILDING.md rule 1):
   props) precede, follow or are interleaved with the worksheet / slide relationships. A chartsheet / dialogsheet listed
   in <sheets> is NOT generated (it needs drawing and chart parts to be valid, and the statement speaks of worksheets).
   EPUB: OPF 2.0 (NCX, guide) and 3.0 (nav) were already a dimension.
+* attachments: a PPTX slide may have a notes slide (on all / odd / even slides, also next to a declared-but-absent slide).
+  Its text (token id+200) belongs to the slide's page: in every view it may only appear with its own slide, and the views
+  that include speaker notes (tabula Text / ToMarkdown / ToMarkdownWithOptions, pptx TextWithOptions{IncludeNotes},
+  Slide.Notes) must show it. An unreadable slide takes its notes with it. XLSX worksheets and EPUB chapters have no
+  attachment whose text the readers expose (sheet comments and linked resources are not read): nothing to assert.
 * references may contain "./" (and for EPUB "../") segments: resolved as RFC 3986 5.2.4 says, relative and absolute.
 * OPC relationship targets are tried relative to the source part ('worksheets/sheet1.xml') and absolute
   ('/xl/worksheets/sheet1.xml'); '..' segments are generated only for EPUB. Speaker notes, slide masters and
@@ -79,7 +84,7 @@ NOTES = """Interpretation choices (read generously, see BUILDING.md rule 1):
 EVIDENCE = dict(
     level="model_checking",
     rule="cases = every package PartsOrderMC.tla builds from K parts (K=3 quick, 4 thorough) x three independent permutations "
-         "(declared order, relationship/manifest listing order, archive order; file-name order = part number) x 85 layout profiles "
+         "(declared order, relationship/manifest listing order, archive order; file-name order = part number) x 90 layout profiles "
          "(XLSX, PPTX, EPUB 2/3; nested / renamed / ../ paths; absolute targets; %20, '+', %2B; decoys; optional parts; one declared part "
          "absent from the archive, with other parts or decoys under the conventional sheet<k>/slide<k> names; member names with space, '+', "
          "'%20', lone '%', e-acute, parentheses, '&' in their encoded / raw spellings with decoys named like the doubly decoded, undecoded "
